@@ -725,10 +725,36 @@ bool TypeChecker::typesAreCompatible(
 
 bool TypeChecker::isNULLPointerConstant(const SyntaxNode* node)
 {
-    return node->kind() == SyntaxKind::IntegerConstantExpression
-            && node->asConstantExpression()->constantToken().kind()
-                == SyntaxKind::IntegerConstantToken
-            && node->asConstantExpression()->constantToken().lexeme()->valueText() == "0";
+    // An integer constant expression with the value 0 (6.3.2.3-3); as far as
+    // told without evaluating expressions: an integer constant of value 0, in
+    // any base and with any suffix, parenthesized or not.
+    while (node && node->kind() == SyntaxKind::ParenthesizedExpression)
+        node = node->asParenthesizedExpression()->expression();
+    if (!node
+            || node->kind() != SyntaxKind::IntegerConstantExpression
+            || node->asConstantExpression()->constantToken().kind()
+                    != SyntaxKind::IntegerConstantToken) {
+        return false;
+    }
+
+    const std::string& text =
+            node->asConstantExpression()->constantToken().lexeme()->valueText();
+    std::string::size_type i = 0;
+    if (text.size() > 2
+            && text[0] == '0'
+            && (text[1] == 'x' || text[1] == 'X' || text[1] == 'b' || text[1] == 'B')) {
+        i = 2;
+    }
+    auto firstDigit = i;
+    while (i < text.size() && text[i] == '0')
+        ++i;
+    if (i == firstDigit)
+        return false;
+    for (; i < text.size(); ++i) {
+        if (text[i] != 'u' && text[i] != 'U' && text[i] != 'l' && text[i] != 'L')
+            return false;
+    }
+    return true;
 }
 
 void TypeChecker::createTypeInfo(
@@ -1720,10 +1746,10 @@ SyntaxVisitor::Action TypeChecker::visitBinaryExpression_Equality(
                                 true,
                                 true))
                     || (rightTy->kind() == TypeKind::Basic
-                        && rightTy->asBasicType()->kind() == BasicTypeKind::Int_S
+                        && isIntegerTypeKind(rightTy->asBasicType()->kind())
                         && isNULLPointerConstant(node->right()))))
             || (leftTy->kind() == TypeKind::Basic
-                    && leftTy->asBasicType()->kind() == BasicTypeKind::Int_S
+                    && isIntegerTypeKind(leftTy->asBasicType()->kind())
                     && isNULLPointerConstant(node->left())
                 && rightTy->kind() == TypeKind::Pointer))) {
         diagReporter_.InvalidOperator(node->operatorToken());
@@ -1885,7 +1911,7 @@ bool TypeChecker::isTypeAssignableFromOtherType(
                                 true,
                                 true))
                     || (otherTy->kind() == TypeKind::Basic
-                        && otherTy->asBasicType()->kind() == BasicTypeKind::Int_S
+                        && isIntegerTypeKind(otherTy->asBasicType()->kind())
                         && isNULLPointerConstant(node)))));
 }
 
